@@ -37,7 +37,15 @@ def scale_to(scale_to, group,
             )
         else:
             cand = cands[0]
-        scale = lena.flow.get_data(cand).scale()
+        try:
+            scale = lena.flow.get_data(cand).scale()
+        except AttributeError:
+            scale = None
+        if scale is None:
+            raise lena.core.LenaValueError(
+                "could not determine the scale of the selected item {}"
+                .format(cand)
+            )
 
     # rescale
     for val in group:
